@@ -193,7 +193,7 @@ def references_in(msg) -> list[int]:
         for fd, val in m.ListFields():
             if fd.type != fd.TYPE_MESSAGE:
                 continue
-            if fd.label == fd.LABEL_REPEATED:
+            if fd.is_repeated:
                 stack.extend(val)
             else:
                 stack.append(val)
